@@ -463,7 +463,7 @@ def r07_9_named_fields(ctx):
                 if fn == "super().__init__":
                     return None
                 if fn == "type":
-                    return Sym("class:UserTuple")
+                    return Sym("class:UserTuple", attrs={"__module__": "user_module", "__qualname__": "UserTuple", "__name__": "UserTuple"})
             if t == "Field":
                 return FieldOrigin
             if t in ("NamedTuple", "OrderedDict"):
@@ -514,7 +514,6 @@ def r19_6_index_tuple_output_type(ctx):
 
 
 def run(ctx):
-    r07_9_named_fields(ctx)
     r07_1_index_tuple(ctx)
     r07_2_decoders(ctx)
     r07_3_array_element(ctx)
@@ -534,6 +533,7 @@ def run(ctx):
     from rules import c11 as _c11
 
     _c11.r11_1_inventory(ctx, only_under="pyteal/ast/abi")  # addressing is a function of the type spec alone: no process-wide cache in the ABI layer
+    r07_9_named_fields(ctx)
     return (
         "Abstract evaluation of _index_tuple on all short member-kind sequences (and long bool runs) against ARC-4 positions; decoder selection tables; array element addressing "
         "terms; per-path audit of out-of-range behaviour; immediate ranges of the extract/substring forms. Extraction on actual encoded bytes is not executed."
